@@ -45,7 +45,7 @@ def run(ck, rng, tier):
         X, lab = gen(rng, ncl, m, per, sep)
         Xt, labt = gen(rng, ncl, m, [3] * ncl, sep)
         kind = rng.choice(("plain", "affine", "rowperm"))
-        if c in (2, 3, 4, 5, 6):
+        if c in (2, 3, 4, 5, 6, 7, 8):
             kind = "affine"
         if c == 4:
             Xt[0, 0] = 0.0     # re-coded below to exactly 1e8, next to the missing-value code
@@ -67,7 +67,15 @@ def run(ck, rng, tier):
                 A, cvec = A * 1e39, cvec * 1e39
             elif c == 6:    # a diagonal re-coding of condition 100 in units of 4e2 .. 4e4
                 A, cvec = np.diag(np.logspace(math.log10(4e2), math.log10(4e4), m)), cvec * 1e3
-            ck.count("affine re-coding: units / offset", 1 if c in (2, 3, 4, 5, 6) else 0)
+            elif c in (7, 8):
+                # features in different units within one data set: the first in units of 300 (variance of order 1e5), another in
+                # units of 1e-2 (variance of order 1e-4), the rest of unit scale; in the other order for c == 8
+                d = [1.0] * m
+                d[0], d[1 if c == 7 else m - 1] = 300.0, 1e-2
+                if c == 8:
+                    d = d[::-1]
+                A = np.diag(d)
+            ck.count("affine re-coding: units / offset", 1 if c in (2, 3, 4, 5, 6, 7, 8) else 0)
             lines.append("lda %s %s %s" % (vf.fmt_mat((X @ A.T + cvec).tolist(), m), vf.fmt_mat(y, 1), vf.fmt_mat((Xt @ A.T + cvec).tolist(), m)))
             meta.append(("affine", A))
         elif kind == "rowperm":
